@@ -61,6 +61,8 @@ pub enum Ev {
     CloseUnanswered { link: u8 },
     EndSession { with_error: bool, peer_err: bool },
     PeerEnd { err: bool },
+    /// the peer sends `count` frames for a handle that is not attached (0 flow, 1 transfer, 2 detach), back to back
+    PeerUnattached { kind: u8, count: u8 },
     DropSession,
 }
 
@@ -84,6 +86,7 @@ fn ev() -> BoxedStrategy<Ev> {
         1 => (0u8..4).prop_map(|link| Ev::CloseUnanswered { link }),
         1 => (any::<bool>(), any::<bool>()).prop_map(|(with_error, peer_err)| Ev::EndSession { with_error, peer_err }),
         1 => any::<bool>().prop_map(|err| Ev::PeerEnd { err }),
+        1 => (0u8..3, 1u8..4).prop_map(|(kind, count)| Ev::PeerUnattached { kind, count }),
         1 => Just(Ev::DropSession),
     ]
     .boxed()
@@ -684,6 +687,33 @@ pub async fn run_async(c: &Case, kf_close_open: bool, excluded: &std::cell::Cell
                     }
                 }
                 session_over = true;
+            }
+            Ev::PeerUnattached { kind, count } => {
+                info.peer_initiated = true;
+                for _ in 0..*count {
+                    let body = match kind % 3 {
+                        0 => Peer::flow_body(Some(0), 100_000, 0, 100_000, Some(77), Some(0), Some(1), false, false),
+                        1 => Peer::transfer_body(77, Some(500), Some(b"x"), Some(0), Some(true), false, None, false),
+                        _ => Peer::detach_body(77, true, None),
+                    };
+                    peer.send_frame(my_ch, &body, &[0x00, 0x53, 0x77, 0x40][..if kind % 3 == 1 { 4 } else { 0 }]).await?;
+                }
+                let fs = peer.new_frames().await;
+                if fs.iter().any(|f| f.name() == "end" && f.channel == ep_ch) {
+                    // the endpoint ended the session for the violation: the peer answers; the handle reports an
+                    // error; the connection and the other session are judged at the end of the script
+                    peer.send_frame(my_ch, &Peer::end_body(None), &[]).await?;
+                    let mut sh = sess.take().unwrap();
+                    match tokio::time::timeout(std::time::Duration::from_secs(30), sh.on_end()).await {
+                        Err(_) => return Err(format!("{what}: on_end() did not return after the end exchange")),
+                        Ok(Ok(())) => return Err(format!("{what}: the endpoint ended the session with an error but on_end() reports a clean end")),
+                        Ok(Err(_)) => {}
+                    }
+                    for l in links.iter_mut() {
+                        l.h = None;
+                    }
+                    session_over = true;
+                }
             }
             Ev::DropSession => {
                 let sh = sess.take().unwrap();
